@@ -220,10 +220,23 @@ func extractC05Forms(l *lean) {
 		{"auth/api/iam/s2s_vptoken.go", "extractNonce"},
 		{"auth/api/iam/pkce_util.go", "validatePKCEParams"},
 		{"auth/api/iam/dpop.go", "dpopFromRequest"},
+		{"auth/api/iam/dpop.go", "ValidateDPoPProof"},
+		{"auth/api/iam/api.go", "RequestJWTByGet"},
+		{"auth/api/iam/api.go", "RequestJWTByPost"},
+		{"auth/api/iam/user.go", "handleUserLanding"},
 	} {
 		fset, f := parseFile(it.file)
 		fd := funcDecl(f, it.fn)
 		lines := c05SrcLines(fset, fd)
+		if it.fn == "handleUserLanding" {
+			// mirrored up to the user session: cut after the GetAndDelete block
+			for i, ln := range lines {
+				if strings.Contains(ln, "accessTokenRequest :=") {
+					lines = lines[:i]
+					break
+				}
+			}
+		}
 		if it.fn != "handleAuthorizeResponseSubmission" {
 			l.def("src_"+it.fn, "List String", leanStrList(lines), lines)
 		}
